@@ -448,6 +448,9 @@ func Run(t *tr.W, thorough bool) {
 		scenWorkMgr(t, r)
 		scenRescan(t, r, true)
 		scenRescan(t, r, false)
+		if i%3 == 0 {
+			scenReorgStop(t, r) // opens real stores: a few per run
+		}
 	}
 	// recorded finding F8, reproduced once per run (costs one deadline)
 	scenBroadcaster(t, r, true)
